@@ -43,7 +43,10 @@ from .errors import (
 from .NamedObject import NamedObject
 from .Placeholder import Placeholder
 
-compiled_re = re.compile('( *(@|def))')
+# Strip the indentation of the decorator line and of the def line of an update
+# block (only at the beginning of a line, and only the keyword def: not
+# 'default = 3' inside the body, not the blanks in front of '@=')
+compiled_re = re.compile( r'^( *(@|def\b))', re.M )
 
 def update_ff( blk ):
   NamedObject._elaborate_stack[-1]._update_ff( blk )
